@@ -20,6 +20,9 @@ Round 6: the path condition of a `return <cursor>` in _find_root is read proposi
 later test may only IMPLY top-and-detached; a condition that allows an attached cursor is refuted); next(<local generator>);
 search loops with `if <no match>: continue`; unlink_and_reroot (c01.mirror_parent) also runs under C05; c01.own is called through
 a proxy that keeps the constructor's dynamic attribute store a site when it moves into a private helper of __init__ / clone.
+Round 7: a search loop that hands back the colliding id (`return t.id`) is a free truth-value atom: refuted when every caller
+tests the result for truth (falsy ids), taken as true when every caller asks `is not None`; members_listed_once also refutes a
+summand with one entry per element of the argument (`[by_id[i] for i in ids]`) unless each entry is taken out of a copy of the list.
 Not decided: a memoised all_children whose invalidation looks complete (UNDECIDED); id tests written with running `picked`
 sets or other idioms the evaluator does not model (UNDECIDED).
 """
